@@ -3,6 +3,7 @@ package syncsplit
 import (
 	"context"
 	"fmt"
+	"math"
 	"os"
 	"runtime"
 	"sort"
@@ -12,6 +13,7 @@ import (
 	"testing"
 	"time"
 
+	"github.com/containerd/nri/pkg/adaptation"
 	"github.com/containerd/nri/pkg/api"
 	"github.com/containerd/nri/pkg/stub"
 	"github.com/containerd/nri/pkg/verifhook"
@@ -100,6 +102,19 @@ type Round struct {
 	HoldChunk     int    `json:"hold_chunk,omitempty"`
 	// HandlerErr: the plugin's Synchronize handler fails in this round (errforms_test.go).
 	HandlerErr *ErrPlan `json:"handler_err,omitempty"`
+	// ReqTimeout: the plugin request timeout configured at the runtime while this round's
+	// plugin registers and synchronizes (process-wide setting, restored afterwards):
+	// "" = the harness's 20 s, "default" = the package default (2 s; raised to 20 s for states
+	// above 8 MB, slowness is never judged), "1h", "100y", "max" = math.MaxInt64 ("no timeout").
+	ReqTimeout string `json:"req_timeout,omitempty"`
+}
+
+var reqTimeouts = map[string]time.Duration{
+	"":        reqTimeout,
+	"default": adaptation.DefaultPluginRequestTimeout,
+	"1h":      time.Hour,
+	"100y":    100 * 365 * 24 * time.Hour,
+	"max":     time.Duration(math.MaxInt64),
 }
 
 // maxRounds bounds the registrations of one case.
@@ -574,6 +589,7 @@ func genRound(t *rapid.T, kind string) Round {
 	if coin(t, "handler-fails", 2) == 0 {
 		c.HandlerErr = genErrPlan(t)
 	}
+	c.ReqTimeout = []string{"", "", "default", "1h", "100y", "100y", "max", "max"}[coin(t, "req-timeout", 3)]
 	return c
 }
 
@@ -858,6 +874,9 @@ func (r Round) validate() (roundSizes, error) {
 		r.Mask < 0 || api.EventMask(r.Mask)&^api.ValidEvents != 0 || r.HoldChunk < 0 || r.HoldChunk > 64 {
 		return rs, fmt.Errorf("out of domain")
 	}
+	if _, ok := reqTimeouts[r.ReqTimeout]; !ok {
+		return rs, fmt.Errorf("out of domain")
+	}
 	if r.HandlerErr != nil && !r.HandlerErr.valid() {
 		return rs, fmt.Errorf("out of domain")
 	}
@@ -1076,6 +1095,24 @@ func (se *session) runRound(idx int, c Round, rs roundSizes, next *Round) (rr ro
 	// verdict is taken from the runtime's side below and Start's error only recorded.
 	p.Mask = api.EventMask(c.Mask)
 
+	// --- the runtime's plugin request timeout for this round ----------------------------------
+	roundTimeout := reqTimeouts[c.ReqTimeout]
+	if c.ReqTimeout == "default" && sh.Whole > 8<<20 {
+		roundTimeout = reqTimeout
+		rr.classes = append(rr.classes, "timeout:default-raised")
+	} else if c.ReqTimeout != "" {
+		rr.classes = append(rr.classes, "timeout:"+c.ReqTimeout)
+	}
+	if roundTimeout >= time.Hour {
+		rr.classes = append(rr.classes, "timeout:huge")
+		if len(pods)+len(ctrs) >= 1000 {
+			rr.classes = append(rr.classes, "timeout:huge+1000-objects")
+		}
+	}
+	adaptation.SetPluginRequestTimeout(roundTimeout)
+	defer adaptation.SetPluginRequestTimeout(reqTimeout)
+	effTimeout := min(roundTimeout, reqTimeout) // what a time clause may refer to
+
 	// --- timing of the previous session's close notification (hold_test.go) ------------------
 	holdHere := idx > 0 && c.HoldPrevClose != ""
 	holdNext := next != nil && next.HoldPrevClose != ""
@@ -1257,7 +1294,7 @@ func (se *session) runRound(idx int, c Round, rs roundSizes, next *Round) (rr ro
 			return fail("registration failed (%v) although every run of <=8 pods plus <=8 containers fits one message (largest: %d bytes): the sender stopped making progress (%s); the harness cut the transfer short, it would have ended at the %v request timeout",
 				s.err, sh.Worst, stuck, reqTimeout)
 		}
-		if s.elapsed >= reqTimeout*9/10 {
+		if s.elapsed >= effTimeout*9/10 {
 			if n := obs.spinning(); n >= 1000 {
 				// not slowness: the sender spent its time sending messages without objects
 				return fail("registration failed (%v) although every run of <=8 pods plus <=8 containers fits one message (largest: %d bytes): the sender made no progress, its last %d messages carried no object and announced more, until the %v request timeout",
@@ -1494,6 +1531,12 @@ func sweepCases() []C09Case {
 	mh2 := round(uniform(1, 100), uniform(9, 480000))
 	mh2.Mask = int(podEventMask)
 	out = append(out, C09Case{Round: aborted(mh, 1), Next: []Round{mh2, mh}})
+	// --- huge request timeouts ("no timeout") with a thousand and more objects -----------------
+	for _, tmo := range []string{"max", "100y", "1h", "default"} {
+		one, many := round(uniform(200, 0), uniform(1000, 0)), round(uniform(100, 100), uniform(2400, 2048))
+		one.ReqTimeout, many.ReqTimeout = tmo, tmo
+		out = append(out, C09Case{Round: one}, C09Case{Round: many})
+	}
 	// --- a failing Synchronize handler: unsplit (15 objects) and split, once / always --------
 	for _, st := range []Round{round(uniform(3, 100), uniform(12, 100)), round(uniform(3, 100), uniform(50, 200<<10))} {
 		for _, once := range []bool{true, false} {
